@@ -13,6 +13,7 @@ CONSTANTS
   DieAt <- NoDie
   Assign <- NoAssign
   Ret <- MRet
+  MergerDies = 0
   ItemKeys <- MItemKeys
   ColChoices <- MColChoices
 INVARIANT Refinement
